@@ -47,6 +47,8 @@ fn main() {
     let code = match id {
         "C01" => run_property(&props::c01::C01, &args),
         "C03" => run_property(&props::c03::C03, &args),
+        "C04" => run_property(&props::c04::C04, &args),
+        "C05" => run_property(&props::c05::C05, &args),
         x => {
             eprintln!("unknown property {}", x);
             2
